@@ -24,14 +24,37 @@ NEEDS = {
  "C19": "a move string whose byte 4 falls inside a multi-byte character",
  "C20": "a non-king piece moving along its own rank onto the long-castling rook's file while the right exists",
 }
+NEEDS2 = {
+ "C01": "a null move with one own piece and at least one enemy piece between an enemy slider and the new mover's king, then generation",
+ "C02": "castling with the king on the d- or f-file so that the rook's destination is the king's origin square",
+ "C03": "a move giving double check while a further aligned slider (later in scan order) pins a piece",
+ "C04": "a Chess960 castle whose rook stands right next to the king (the castle is a one-square step onto an own piece)",
+ "C05": "a const slider look-up whose occupancy contains the slider's own square",
+ "C06": "a castling right naming a back-rank square that holds an enemy rook",
+ "C07": "a double pawn push that uncovers a slider check, then formatting and re-parsing the reached board",
+ "C08": "str::parse of a record with standard castling letters and exactly one bad later field",
+ "C09": "a builder state with a castling right stored on the wrong side of the king (rook really there)",
+ "C10": "a null move made while an en-passant file is pending",
+ "C11": "a double pawn push answered by a double push on a different file (the new file's key is never added)",
+ "C12": "half-move clock 100, side to move in check but not mated",
+ "C13": "side to move in check from the pawn that just advanced two squares, en-passant capture available",
+ "C14": "double push answered by a double push on another file, then a null move",
+ "C15": "side to move in check from the pawn that just advanced two squares; try_play of the en-passant capture",
+ "C16": "all 16 pieces movable, two en-passant capturers, not in check, a king step and a legal castle (19 batches)",
+ "C17": "membership query of a promotion-to-king move on a pawn batch reaching the last rank",
+ "C18": "collecting an iterator that yields the same square an even number of times",
+ "C19": "try_offset with a file or rank offset above 120 in a build with overflow checks",
+ "C20": "SAN text whose promotion suffix disagrees with the move (missing on a promotion, present on a quiet move)",
+}
 for d in sorted(os.listdir(os.path.join(HERE, "seeded"))):
-    m = re.match(r"agent-(C\d+)$", d)
+    m = re.match(r"agent(2?)-(C\d+)$", d)
     if not m:
         continue
-    pid = m.group(1)
+    pid = m.group(2)
+    second = bool(m.group(1))
     sd = os.path.join(HERE, "seeded", d)
     conf = {}
-    cf = "/tmp/wt/%s/CONFIRM.txt" % pid
+    cf = os.path.join(sd, "CONFIRM.txt") if second else "/tmp/wt/%s/CONFIRM.txt" % pid
     if os.path.exists(cf):
         for line in open(cf):
             line = line.strip()
@@ -65,7 +88,8 @@ for d in sorted(os.listdir(os.path.join(HERE, "seeded"))):
     meta = {
         "breaks_property": pid,
         "written_by": "independent sub-agent given only the property text and a scratch worktree",
-        "needs_to_manifest": NEEDS.get(pid, ""),
+        "needs_to_manifest": (NEEDS2 if second else NEEDS).get(pid, ""),
+        "round": 2 if second else 1,
         "files": ["patch.diff", "demo/", "NOTES.md"],
         "independent_confirmation": conf,
         "confirmation_procedure": "tools/confirm_seed.sh <worktree>: git apply --check on a clean checkout; demo exit code without and with the patch; cargo test --workspace --offline --lib with the patch",
